@@ -47,6 +47,39 @@ def worker(inst):
     return dict(structure=True, calls=calls)
 
 
+def selftest(calls, sub):
+    """corrupted copies of accepted calls must be rejected with the expected clause (the binding can say no)"""
+    import copy
+    muts, want = [], []
+    for c in [c for c in calls if len(c["ev"]) >= 4][:20]:
+        a = copy.deepcopy(c["ev"])
+        del a[1]
+        muts.append(dict(ev=a))
+        want.append({"sfista_step_not_in_spec"})
+        b = copy.deepcopy(c["ev"])
+        for e in b:
+            e["ucount"] += 1
+        muts.append(dict(ev=b))
+        want.append({"sfista_inv_smoothing_from_run_count", "sfista_initial_state"})
+        d = copy.deepcopy(c["ev"])[:-2]
+        muts.append(dict(ev=d))
+        want.append({"sfista_no_terminal_state"})
+    if not muts:
+        return dict(corrupted=0, rejected=0)
+    os.makedirs(sub, exist_ok=True)
+    p = os.path.join(sub, "traces.json")
+    with open(p, "w") as f:
+        json.dump([dict(id=i + 1, ev=m["ev"]) for i, m in enumerate(muts)], f)
+    r = vlib.run_tlc("SfistaTrace.tla", "SfistaTrace.cfg", sub, workers=1, heap="2g", env={"TRACE_FILE": p}, timeout=1800)
+    if not r["ok"]:
+        raise vlib.MachineryError("self-test of SfistaTrace.tla did not complete:\n%s" % r["out"][-1500:])
+    got = {int(rec[1]): set(c for c, _ in rec[2]) for rec in vlib.extract_printed(r["out"], "DONE")}
+    for i, w in enumerate(want):
+        if not (w & got.get(i + 1, set())):
+            raise vlib.MachineryError("SfistaTrace.tla accepted a corrupted call (expected one of %s, got %s)" % (sorted(w), sorted(got.get(i + 1, set()))))
+    return dict(corrupted=len(muts), rejected=len(muts))
+
+
 def part(V, tier, wd, insts):
     import multiprocessing as mp
     mc = model_check(os.path.join(wd, "sfista_model"))
@@ -81,5 +114,6 @@ def part(V, tier, wd, insts):
                 if shown < 3:
                     shown += 1
                     print("NOTE: monitored ctrsbox_sfista call %s: %s at snapshot %s - the kernel's iteration-count bookkeeping departs from Sfista.tla (conformance, not a verdict)" % (rec[1], clause, l))
-    return dict(model=mc, loop_structure_recognised=all(r["structure"] for r in res), monitored_calls=len(calls), snapshots=sum(len(c["ev"]) for c in calls), tlc_states=gen,
+    st = selftest(calls, os.path.join(wd, "sfista_selftest")) if calls and not notes else dict(corrupted=0, rejected=0)
+    return dict(model=mc, binding_selftest=st, loop_structure_recognised=all(r["structure"] for r in res), monitored_calls=len(calls), snapshots=sum(len(c["ev"]) for c in calls), tlc_states=gen,
                 cap_binding_calls=sum(1 for c in calls if c["ev"][0]["theory"] > c["ev"][0]["cap"]), conformance_notes=notes)
